@@ -106,6 +106,11 @@ def pool(tier, seed):
                 (f"numpy-{cn}-nested", p.Sum((p.Product((cv, a)), p.Product((2, b)))))]
         if cn != "float32":     # an inexact float32 quotient is rounded to single precision by the evaluator, to double precision by Python literals
             out.append((f"numpy-{cn}-quotient", p.Quotient(a, cv)))
+    # the negative float zero as a power base / exponent / factor / term ((-0.0)**0 is 1.0, -(0.0**0) is -1.0), and bool constants in every position
+    for cn, cv in (("-0.0", -0.0), ("0.0", 0.0), ("-1.5", -1.5)):
+        out += [(f"signed-zero-{cn}-power-base", p.Power(cv, a)), (f"signed-zero-{cn}-power-base-const", p.Power(cv, 0)), (f"signed-zero-{cn}-product", p.Product((cv, p.Sum((a, 1))))),
+                (f"signed-zero-{cn}-sum", p.Sum((cv, cv))), (f"signed-zero-{cn}-exponent", p.Power(p.Sum((a, 3)), cv))]
+    out += [("bool-sum", p.Sum((a, True))), ("bool-product", p.Product((False, a))), ("bool-if", p.If(True, a, b)), ("bool-power", p.Power(True, a))]
     # complex constants, in particular negative and purely imaginary ones as a power base / a factor
     for cn, cv in (("1j", 1j), ("-1j", -1j), ("1-2j", 1 - 2j), ("-1+0j", complex(-1, 0)), ("-0.5j", complex(0, -0.5))):
         out += [(f"complex-{cn}-power-base", p.Power(cv, a)), (f"complex-{cn}-product", p.Product((cv, a))), (f"complex-{cn}-sum", p.Sum((a, cv))),
@@ -445,8 +450,39 @@ def b_importer_subclasses(tier):
     return b
 
 
+def b_warnings_as_errors(tier, seed):
+    """The four code-generation paths under `-W error`: no deprecated path of the library or of Python is taken for well-formed input."""
+    import warnings as _w
+    import pymbolic
+    from pymbolic.interop.ast import ASTToPymbolic, to_evaluatable_python_function, to_python_ast
+    b = BoundedRun("codegen-warnings-as-errors", rule="with every warning turned into an error: compile, to_python_ast, to_evaluatable_python_function and the import of the exported AST on a "
+                   "sample of the pool (incl. bool, negative, complex and numpy constants, keyword calls): the outcome class they have without the filter", bound="every 4th pool expression x 4 paths",
+                   functions=["PymbolicToASTMapper.map_constant", "PymbolicToASTMapper.map_*", "CompileMapper", "ASTToPymbolic"])
+    for label, e in pool(tier, seed)[::4] + [t for t in pool(tier, seed) if t[0].startswith(("bool-", "signed-zero", "CallKw", "numpy-bool"))]:
+        paths = [("compile", lambda: pymbolic.compile(e)), ("to_python_ast", lambda: to_python_ast(e)), ("function-source", lambda: to_evaluatable_python_function(e, "fn")),
+                 ("reimport", lambda: ASTToPymbolic()(to_python_ast(e)))]
+        for pname, fn in paths:
+            with _w.catch_warnings():
+                _w.simplefilter("ignore")
+                ref = outcome.run(fn)
+            with _w.catch_warnings():
+                _w.simplefilter("error")
+                try:
+                    fn()
+                    got = ("val",)
+                except Warning as w_:
+                    got = ("exc", type(w_), str(w_)[:100])
+                except Exception as ex:  # noqa: BLE001
+                    got = ("exc", type(ex))
+            b.case((pname, label), sample=dict(path=pname, label=label))
+            if got[0] != ref[0] or (got[0] == "exc" and got[1] is not ref[1]):
+                b.fail(Failure("codegen-warnings-as-errors", f"path={pname} label={label} expr={e!r}"[:300], dict(kind="cg-werror", path=pname, expr=repr(e)), expected=outcome.describe(ref)[:100],
+                               actual=repr(got)[:160], functions=["PymbolicToASTMapper.map_constant" if "ast" in pname or pname != "compile" else "CompileMapper"]))
+    return b
+
+
 def bounded(tier, seed, procs):
-    return [b_programs(tier, seed), b_signature(tier), b_importer_subclasses(tier)]
+    return [b_programs(tier, seed), b_signature(tier), b_importer_subclasses(tier), b_warnings_as_errors(tier, seed)]
 
 
 def proof_jobs(tier):
